@@ -47,6 +47,16 @@ var c11Cases = []vCase{
 	{name: "setof-nested", prog: c11Facts, query: "setof(Y-L, setof(X, r(X, Y), L), LL)."},
 	{name: "bagof-error-goal", prog: "", query: "bagof(X, G, L)."},
 	{name: "bagof-error-instances", prog: "", query: "bagof(X, true, foo)."},
+	{name: "bagof-quantifier-aliased-before", prog: c11Facts, query: "Y = Z, bagof(X, Y^r(X, Z), L)."},
+	{name: "bagof-quantifier-aliased-before-2", prog: c11Facts, query: "Y = Z, bagof(X, Y^r(X, Y), L)."},
+	{name: "setof-quantifier-bound-to-compound", prog: "u(k0, f(k1)). u(k2, f(k3)). u(k4, f(k1)).", query: "Y = f(A), setof(X, Y^u(X, Y), L)."},
+	{name: "bagof-quantifier-compound-term", prog: "t(k0, k1, k2). t(k3, k1, k2). t(k0, k5, k4).", query: "bagof(X, f(Y, Z)^t(X, Y, Z), L)."},
+	{name: "bagof-quantifier-list-bound-later", prog: "t(k0, k1, k2). t(k3, k1, k2). t(k0, k5, k4).", query: "Q = [Y|W], W = [Z], bagof(X, Q^t(X, Y, Z), L)."},
+	{name: "bagof-free-var-aliased-before", prog: c11Facts, query: "Y = Z, bagof(X, r(X, Y), L), Z == Y."},
+	{name: "bagof-template-aliased-before", prog: c11Facts, query: "T = X, bagof(T, r(X, Y), L)."},
+	{name: "bagof-goal-bound-before", prog: c11Facts, query: "G = r(X, Y), bagof(X, Y^G, L)."},
+	{name: "bagof-goal-with-caret-bound-before", prog: c11Facts, query: "G = Y^r(X, Y), bagof(X, G, L)."},
+	{name: "setof-witness-bound-to-partial", prog: "u(k0, f(k1)). u(k2, f(k3)). u(k4, f(k1)).", query: "Y = f(A), setof(X, u(X, Y), L)."},
 	{name: "bagof-caret-nonvar-goal", prog: "", query: "bagof(X, Y^1, L)."},
 	{name: "bagof-cut-local", prog: c11Facts, query: "bagof(X, (r(X, Y), !), L)."},
 	{name: "findall-then-backtrack", prog: c11Facts + "o(k0). o(k1).", query: "o(A), findall(X, r(X, A), L)."},
